@@ -63,6 +63,13 @@ func init() {
 		ruleMemberLoops(inMVT, 18, 0),
 	)
 
+	register("C04",
+		"Structural necessary conditions of the WKT round trip: writer and reader agree on keyword, keyword offset and EMPTY literal for every kind; Ring/Bound are written as POLYGON; floats are printed with %g/%v and parsed with 64 bits (necessary for identical float64); the writer is total on every kind/shape (abstract interpretation). The text grammar (collection splitting on exponents/nesting/EMPTY, whitespace handling) is NOT decided - a known round-trip failure there is out of reach of this family.",
+		ruleWKTTables,
+		ruleShapeFaults(shapeConfig{label: "wkt writer", keep: inPkgs("encoding/wkt."), floor: 2}),
+		ruleMemberLoops(inPkgs("encoding/wkt."), 6, 0),
+	)
+
 	register("C05",
 		"Structural necessary conditions of 'decoders are total and allocation-bounded': no guard arithmetic on a decoded count can wrap in a narrow unsigned type. (Further clauses are added by the shape interpreter.)",
 		ruleNarrowArith(inDecoders, 2),
